@@ -107,9 +107,23 @@ class XPathToken(Token[ta.XPathTokenType]):
         elif symbol == '{' or symbol == 'Q{':
             return '%s%s}%s' % (symbol, self[0].value, self[1].source)
         elif symbol == '=>':
+            # The arguments of a named function are not part of its source (they are set by the evaluation)
             if isinstance(self[1], self.registry.function_token):
                 return '%s => %s%s' % (self[0].source, self[1].symbol, self[2].source)
+            elif self[1].symbol == ':' and isinstance(self[1][1], self.registry.function_token):
+                return '%s => %s:%s%s' % (
+                    self[0].source, self[1][0].source, self[1][1].symbol, self[2].source
+                )
+            elif self[1].symbol == 'Q{' and isinstance(self[1][1], self.registry.function_token):
+                return '%s => Q{%s}%s%s' % (
+                    self[0].source, self[1][0].value, self[1][1].symbol, self[2].source
+                )
             return '%s => %s%s' % (self[0].source, self[1].source, self[2].source)
+        elif symbol == '(string)':
+            return "'%s'" % str(self.value).replace("'", "''")
+        elif symbol == '(decimal)':
+            literal = format(self.value, 'f')
+            return literal if '.' in literal else f'{literal}.'
         elif symbol == 'if':
             return 'if (%s) then %s else %s' % (self[0].source, self[1].source, self[2].source)
         elif symbol == 'instance':
